@@ -59,6 +59,29 @@ pub fn any_arg(slot: &'static mut [u8; 4]) -> &'static UnixStr {
     unsafe { UnixStr::from_bytes_unchecked(&slot[..=l]) }
 }
 
+/// oracle for the value grammar of an i32 argument of <= 3 bytes (what `i32::from_str` accepts: an optional
+/// sign followed by at least one decimal digit, nothing else); input includes the terminating NUL
+pub fn small_i32(a: &[u8]) -> Option<i32> {
+    let n = a.len() - 1;
+    if n == 0 || n > 3 {
+        return None;
+    }
+    let (neg, start) = if a[0] == b'-' { (true, 1) } else if a[0] == b'+' { (false, 1) } else { (false, 0) };
+    if start == n {
+        return None;
+    }
+    let mut v: i32 = 0;
+    let mut i = start;
+    while i < n {
+        if a[i] < b'0' || a[i] > b'9' {
+            return None;
+        }
+        v = v * 10 + (a[i] - b'0') as i32;
+        i += 1;
+    }
+    Some(if neg { -v } else { v })
+}
+
 pub static mut SLOT0: [u8; 4] = [0; 4];
 pub static mut SLOT1: [u8; 4] = [0; 4];
 
